@@ -43,7 +43,7 @@ Definition sg_adj (c : vec) : mat :=
 
 Definition sg_inverse (c : vec) : vec :=
   let qi := so3_inverse F (sg_q c) in
-  vneg (so3_act F qi (vsub (sg_p c) (vscale (sg_t c) (sg_v c)))) ++ qi
+  vadd (vneg (so3_act F qi (sg_p c))) (vscale (sg_t c) (so3_act F qi (sg_v c))) ++ qi
   ++ vneg (so3_act F qi (sg_v c)) ++ [- sg_t c].
 Definition sg_inverse_J (c : vec) : mat := mneg (sg_adj c).
 
